@@ -214,7 +214,7 @@ fn main() {
         "gen-prog" => {
             let mut out = Out::create(arg(args, 1));
             let mut agree = Out::create(arg(args, 2));
-            let groups: usize = args.get(3).and_then(|s| s.parse().ok()).unwrap_or(if th { 12000 } else { 1000 });
+            let groups: usize = args.get(3).and_then(|s| s.parse().ok()).unwrap_or(if th { 12000 } else { 1300 });
             let mut g = Gen::new(rng(20), false, 8);
             g.allow_native = true;
             let mut skipped_calls = 0;
